@@ -278,6 +278,63 @@ def listAll (ue : Bool) (fs : FS ν) : Option (List Key) :=
       | some p, some s => if validStr e.2.2 then some (p, s, e.2.2) else none
       | _, _ => none)
 
+/-! ### finer interleavings: the body in two steps
+
+   `write_version` creates, fills and syncs its tmp file BEFORE it takes the per-path lock
+   (`execute_locked_write`); only the version check, the rename / unlink, the version bookkeeping and
+   `clean_locks` happen under it. So between operations the real granularity is: `prep` (outside the
+   lock, touches only the operation's own, uniquely numbered tmp file) and `commit` (one critical
+   section per destination path). `Sched2` interleaves these steps of all issued operations freely. -/
+
+/-- in-memory state plus the prepared-but-not-committed operations with their tmp files -/
+structure St2 (ν : Type) where
+  st : St ν
+  prepared : List (Pending ν × Key) := []
+
+inductive Step2 (ν : Type) where
+  /-- the part of the body before `execute_locked_write` -/
+  | prep (x : Pending ν)
+  /-- the part from `execute_locked_write` to the end of the body -/
+  | commit (x : Pending ν)
+
+def tmpOf (s : St2 ν) (x : Pending ν) : Option Key :=
+  (s.prepared.find? (fun e => e.1.version == x.version)).map (·.2)
+
+/-- mirrors the first half of write_version: `create tmp, write_all, sync_all` with a fresh counter value
+    (a remove has no such half; preparing twice is a no-op) -/
+def prep2 (s : St2 ν) (x : Pending ν) : St2 ν :=
+  match x.body, tmpOf s x with
+  | .write v, none =>
+    let tmp := tmpPath x.dest s.st.tmpCounter
+    { st := { s.st with fs := applyOps s.st.fs [.create tmp, .writeAll tmp v, .fsync tmp], tmpCounter := s.st.tmpCounter + 1 },
+      prepared := (x, tmp) :: s.prepared }
+  | _, _ => s
+
+/-- mirrors the locked half: version check; not stale ⇒ rename the tmp file over the destination + dir
+    fsync (write) or unlink (+ dir fsync) (remove); stale write ⇒ the tmp file is removed; then the
+    version bookkeeping and clean_locks (`finishLocks`). A commit of an operation that was not prepared
+    runs the whole body (`exec`). -/
+def commit2 (s : St2 ν) (x : Pending ν) : St2 ν :=
+  match x.body, tmpOf s x with
+  | .write _, some tmp =>
+    { st := { s.st with
+              fs := applyOps s.st.fs (if staleNow s.st x then [.unlink tmp] else [.rename tmp x.dest, .fsyncDir x.dest.1 x.dest.2.1]),
+              locks := finishLocks s.st x },
+      prepared := s.prepared.filter (fun e => e.1.version != x.version) }
+  | _, _ => { s with st := exec s.st x }
+
+def Step2.apply (s : St2 ν) : Step2 ν → St2 ν
+  | .prep x => prep2 s x
+  | .commit x => commit2 s x
+
+def run2 (s : St2 ν) (steps : List (Step2 ν)) : St2 ν := steps.foldl Step2.apply s
+
+/-- the operations a schedule commits, in commit order -/
+def commitsOf : List (Step2 ν) → List (Pending ν)
+  | [] => []
+  | .commit x :: r => x :: commitsOf r
+  | .prep _ :: r => commitsOf r
+
 /-! ### the refinement relation between a directory and the abstract map -/
 
 /-- `fs` (with whatever tmp/trash artifacts it holds) represents the abstract store `s` in the layout `ue` -/
